@@ -84,7 +84,12 @@ def build (kind, rng):
   """Returns the outermost ethernet object of a stack of the given kind."""
   pkt = P()
   payload = rbytes(rng, plen(rng))
-  e = pkt.ethernet(dst=mac(rng), src=mac(rng))
+  # (addresses as address objects or, as the library also takes them, as the
+  #  six raw octets)
+  def mac_any ():
+    m = mac(rng)
+    return m.toRaw() if rng.random() < 0.3 else m
+  e = pkt.ethernet(dst=mac_any(), src=mac_any())
   top = e
   tagged = rng.random() < 0.3
   def set_l3 (ethertype, l3):
@@ -102,14 +107,19 @@ def build (kind, rng):
   def ip4 (proto, l4, **kw):
     # (a fifth of the datagrams leave the identification to the library)
     if rng.random() >= 0.2: kw["id"] = rint(rng, 16)
+    # (the three ways of putting a payload under a header: the constructor's
+    #  keyword, set_payload(), the payload attribute)
+    how = rng.randrange(3)
+    if how == 0: kw["payload"] = l4
     ip = pkt.ipv4(tos=rint(rng, 8),
                   flags=rng.choice([0, 0, 2, 4, 6]), ttl=rint(rng, 8),
                   protocol=proto, srcip=addr4(rng), dstip=addr4(rng), **kw)
-    ip.payload = l4
+    if how == 1: ip.set_payload(l4)
+    elif how == 2: ip.payload = l4
     return ip
   if kind == "arp":
-    a = pkt.arp(opcode=rng.choice([1, 2, 3, 4, rint(rng, 16)]), hwsrc=mac(rng),
-                hwdst=mac(rng), protosrc=addr4(rng), protodst=addr4(rng))
+    a = pkt.arp(opcode=rng.choice([1, 2, 3, 4, rint(rng, 16)]), hwsrc=mac_any(),
+                hwdst=mac_any(), protosrc=addr4(rng), protodst=addr4(rng))
     a.payload = payload if rng.random() < 0.3 else b""
     set_l3(0x0806, a)
   elif kind in ("tcp", "tcp_opts"):
@@ -358,7 +368,8 @@ def layer_fields (o):
 
 def norm (v):
   from pox.lib.addresses import EthAddr, IPAddr, IPAddr6
-  if isinstance(v, (EthAddr, IPAddr, IPAddr6)): return ("addr", v.raw)
+  if isinstance(v, EthAddr): return v.raw        # (the same as its six octets)
+  if isinstance(v, (IPAddr, IPAddr6)): return ("addr", v.raw)
   if isinstance(v, (bytes, bytearray)): return bytes(v)
   if isinstance(v, (int, float, str, bool)) or v is None: return v
   if isinstance(v, (list, tuple)): return [norm(x) for x in v]
